@@ -26,6 +26,7 @@ statechart:
   preamble: |
     x = 0
     log = []
+    bins = {'a': [], 'b': []}
   root state:
     name: root
     initial: work
@@ -36,6 +37,7 @@ statechart:
       initial: a
       contract:
       - always: x >= __old__.x
+      - always: bins['a'] is __old__.bins['a'] and len(bins['a']) >= 0
       - after: x > __old__.x or x == __old__.x
       transitions:
       - event: pause
@@ -50,7 +52,9 @@ statechart:
           contract:
           - after: x == __old__.x
         - event: inc
-          action: x += 1
+          action: |
+            x += 1
+            bins['a'].append(x)
           contract:
           - after: x == __old__.x + 1
         - event: job
